@@ -383,45 +383,77 @@ def undefined_cases(res: Result, rng: random.Random, d: Diff, fails: list, n: in
             fails.append({"what": "untyped message does not expose every AVP under its normalised name in wire order",
                           "line": f"MSGDEC {hexs[:600]} 0", "real": str(got_names)[:300], "expected": str(names)[:300]})
             continue
-        # repeated AVPs as lists (one element per occurrence), single ones bare
-        counts = {}
-        for a in avps:
-            c, v = (int(x) for x in a.split(".")[:2])
+        # repeated AVPs as lists (one element per occurrence), single ones bare, grouped AVPs as nested objects - at every level,
+        # each level counting its own members only
+        def nm_of(c, v):
             e = A.get_avp_dictionary_entry(c, v)
-            nm = (e["name"] if e else "Unknown").replace("-", "_").lower()
-            counts[nm] = counts.get(nm, 0) + 1
-        pairs, depth, cur = [], 0, ""
-        for ch in got[2:-1]:
-            if ch in "{[":
-                depth += 1
-            elif ch in "}]":
-                depth -= 1
-            if depth == 0 and ch == ";":
-                pairs.append(cur)
-                cur = ""
-            else:
-                cur += ch
-        if cur:
-            pairs.append(cur)
-        for pr in pairs:
-            nm, val = pr.split("=", 1)
+            return (e["name"] if e else "Unknown").replace("-", "_").lower(), e
+
+        def expect(children):
+            order, occ = [], {}
+            for c, v, _f, data in children:
+                nm, e = nm_of(c, v)
+                ty = getattr((e or {}).get("type"), "__name__", "")
+                if ty == "AvpGrouped":
+                    try:
+                        shape = ("G", expect(gen.rfc_parse_avps(data)))
+                    except Exception:
+                        shape = ("?",)
+                else:
+                    shape = ("V",)
+                if nm not in occ:
+                    order.append(nm)
+                    occ[nm] = []
+                occ[nm].append(shape)
+            return [(nm, occ[nm][0] if len(occ[nm]) == 1 else ("N", occ[nm])) for nm in order]
+
+        def split_top(sx, sep):
+            parts, depth, cur = [], 0, ""
+            for ch in sx:
+                if ch in "{[":
+                    depth += 1
+                elif ch in "}]":
+                    depth -= 1
+                if depth == 0 and ch == sep:
+                    parts.append(cur)
+                    cur = ""
+                else:
+                    cur += ch
+            if cur:
+                parts.append(cur)
+            return parts
+
+        def parse(val):
+            if val.startswith("G{"):
+                return ("G", [(p.split("=", 1)[0], parse(p.split("=", 1)[1])) for p in split_top(val[2:-1], ";")])
             if val.startswith("N["):
-                inner, depth, elems = val[2:-1], 0, 1 if val[2:-1] else 0
-                for ch in inner:
-                    if ch in "{[":
-                        depth += 1
-                    elif ch in "}]":
-                        depth -= 1
-                    elif ch == "," and depth == 0:
-                        elems += 1
-            else:
-                elems = None
-            want = counts.get(nm, 0)
-            if (want > 1 and elems != want) or (want == 1 and elems is not None):
-                fails.append({"what": f"untyped message: AVP {nm} occurs {want} time(s) but is exposed as "
-                                      f"{'a list of ' + str(elems) if elems is not None else 'a single value'} (repeated AVPs are lists in "
-                                      "wire order, single ones bare)", "line": f"MSGDEC {hexs[:600]} 0", "real": pr[:200]})
-                break
+                return ("N", [parse(x) for x in split_top(val[2:-1], ",")])
+            return ("V",)
+
+        def same(a, b):
+            if "?" in (a[0], b[0]):
+                return True
+            if a[0] != b[0]:
+                return False
+            if a[0] == "G":
+                return [n for n, _ in a[1]] == [n for n, _ in b[1]] and all(same(x, y) for (_, x), (_, y) in zip(a[1], b[1]))
+            if a[0] == "N":
+                return len(a[1]) == len(b[1]) and all(same(x, y) for x, y in zip(a[1], b[1]))
+            return True
+
+        def render(a):
+            if a[0] == "G":
+                return "{" + ";".join(f"{n}={render(x)}" for n, x in a[1]) + "}"
+            if a[0] == "N":
+                return "[" + ",".join(render(x) for x in a[1]) + "]"
+            return a[0].lower()
+        want_tree = ("G", expect(gen.rfc_parse_avps(body)))
+        got_tree = parse(got)
+        if not same(want_tree, got_tree):
+            fails.append({"what": "untyped message: the attribute structure differs from the AVP tree (per level: a name occurring once is "
+                                  "a bare value / nested object, a name occurring k > 1 times a list of k in wire order, counted among "
+                                  "the members of that level only)", "line": f"MSGDEC {hexs[:800]} 0",
+                          "real": render(got_tree)[:400], "expected": render(want_tree)[:400]})
 
 
 def run(res: Result, tier: str, seed: int):
